@@ -3,7 +3,7 @@ EXTENDS Royalty
 MCPkgRoy == [PN |-> [m_pub |-> Amt("xrd", 1), run |-> Amt("usd", 1)], PW |-> [f |-> Amt("xrd", 2)]]
 MCOwnerOf == [C1 |-> 1, PN |-> 0, PW |-> 1]
 MCSetAmounts == {Free, Amt("xrd", 2), Amt("usd", 1), Amt("xrd", 166), Amt("xrd", 167), Amt("xrd", -1), Amt("xrd", 0)}
-MCSetAmountsSmall == {Free, Amt("xrd", 2), Amt("usd", 1), Amt("xrd", 167)}
+MCSetAmountsSmall == {Free, Amt("usd", 1), Amt("xrd", 167)}
 \* balances do not influence behaviour except through the amounts claimed; bound them for the view
 MCView == <<cfg, locked, [r \in Recipients |-> vault[r] = Nil]>>
 =============================================================================
